@@ -121,6 +121,9 @@ pub struct Schedule {
     pub sleep_pct: u32,
     #[serde(default)]
     pub sleep_ms: u64,
+    /// If not empty, the duration of each such pause is drawn from this list.
+    #[serde(default)]
+    pub sleep_ms_choices: Vec<u64>,
     /// Probability (percent) of opening several waiting gates at once at a
     /// quiescent point (user code of several scenarios completing in the same
     /// executor turn).
@@ -861,8 +864,14 @@ fn drive(
         if case.schedule.sleep_pct > 0
             && rng.random_range(0..100) < case.schedule.sleep_pct
         {
-            thread::sleep(Duration::from_millis(case.schedule.sleep_ms));
-            rec("slept", json!({"ms":case.schedule.sleep_ms}));
+            let ms = if case.schedule.sleep_ms_choices.is_empty() {
+                case.schedule.sleep_ms
+            } else {
+                let ch = &case.schedule.sleep_ms_choices;
+                ch[rng.random_range(0..ch.len())]
+            };
+            thread::sleep(Duration::from_millis(ms));
+            rec("slept", json!({"ms":ms}));
         }
         let key = loop {
             match sched.pop_front() {
